@@ -164,7 +164,7 @@ func (d *Doc) Norm() {
 // Pool maps atoms to concrete strings.
 type Pool struct {
 	Text, Note, Css, Cls, Ann, Voice, RegionID, Width, Scroll map[int]string
-	Align, Line, Position, Size, Vertical                       map[int]string
+	Align, Line, Position, Size, Vertical                     map[int]string
 }
 
 var base = Pool{
